@@ -463,12 +463,17 @@ def r3(ctx: Ctx) -> None:
 
 
 def _isinstance_chain(f: FunctionInfo, var: str) -> List[str]:
-    out = []
-    for n in ast.walk(f.node):
+    """classes tested with isinstance(<var>, C), in SOURCE order (pre-order walk: an unrolled table loop keeps its row order)"""
+    out: List[str] = []
+
+    def visit(n: ast.AST) -> None:
         if isinstance(n, ast.If) and isinstance(n.test, ast.Call) and (dotted(n.test.func) or "") == "isinstance" \
                 and isinstance(n.test.args[0], ast.Name) and n.test.args[0].id == var:
-            out.append((n.lineno, norm_text(n.test.args[1])))
-    return [c for _l, c in sorted(out)]
+            out.append(norm_text(n.test.args[1]))
+        for c in ast.iter_child_nodes(n):
+            visit(c)
+    visit(f.node)
+    return out
 
 
 def r4(ctx: Ctx) -> None:
@@ -625,6 +630,38 @@ def r4(ctx: Ctx) -> None:
     ctx.ob("C13.R4", dec, "each tag decodes with the inverse constructor of what encodes it", None, not bad,
            f"mismatches: {bad}" if bad else f"{len(read)} tags", text="inverse")
     # the encoder is LOSSLESS: the payload value is the value itself, its argument-less isoformat(), or str() of it
+    def _canon_payload(t: str) -> str:
+        """look through one-parameter module helpers (`_same(value)`), an outer str(), unbound-method spelling
+        (`date.isoformat(value)`) and isoformat arguments that spell the defaults (sep='T', timespec='auto')"""
+        for _round in range(4):
+            try:
+                e = ast.parse(t, mode="eval").body
+            except SyntaxError:
+                return t
+            if isinstance(e, ast.Call) and isinstance(e.func, ast.Name) and len(e.args) == 1 and not e.keywords and norm_text(e.args[0]) == "value":
+                k = _fn_kind(e.func)
+                if k != "?" and k != t and not k.startswith(e.func.id + "("):
+                    t = k
+                    continue
+            if isinstance(e, ast.Call) and isinstance(e.func, ast.Name) and e.func.id == "str" and len(e.args) == 1 \
+                    and isinstance(e.args[0], ast.Call) and isinstance(e.args[0].func, ast.Attribute) and e.args[0].func.attr == "isoformat":
+                t = norm_text(e.args[0])
+                continue
+            if isinstance(e, ast.Call) and isinstance(e.func, ast.Attribute) and e.func.attr == "isoformat" and isinstance(e.func.value, ast.Name) \
+                    and e.func.value.id in ("date", "datetime", "dt_time", "time") and len(e.args) == 1 and norm_text(e.args[0]) == "value" and not e.keywords:
+                t = "value.isoformat()"
+                continue
+            if isinstance(e, ast.Call) and isinstance(e.func, ast.Attribute) and e.func.attr == "isoformat" and norm_text(e.func.value) == "value":
+                from .common import module_const_value
+                vals = [module_const_value(ctx, mod, a_) for a_ in e.args] + [module_const_value(ctx, mod, k.value) for k in e.keywords]
+                names = ["sep", "timespec"][:len(e.args)] + [k.arg for k in e.keywords]
+                if all((n_ == "sep" and v_ == "T") or (n_ == "timespec" and v_ == "auto") for n_, v_ in zip(names, vals)):
+                    t = "value.isoformat()"
+                    continue
+            break
+        return t
+
+    payloads = [_canon_payload(t) for t in payloads]
     lossy = [t for t in payloads if t not in ("value", "str(value)", "value.isoformat()")]
     ctx.ob("C13.R4", enc, "every bound is encoded losslessly", None, bool(payloads) and not lossy,
            ("payload expressions are value / value.isoformat() / str(value)" if not lossy else
